@@ -38,6 +38,7 @@ def _c04():
         ("R-DISPATCH", "every sorted-set command named by the property has a dispatcher arm reaching the engine with the right effect class and skip-list primitive", rules_cmd.make_dispatch_rule("C04")),
         ("R-ATOMIC", "a refused multi-member ZADD adds nothing: no validation refusal reachable after the first mutation", rules_cmd.rule_atomic("C04")),
         ("R-NAN", "every score handed to SkipList::insert in the engine is dominated by an is_nan()/is_finite() refusal of that very value", rules_zset.rule_nan),
+        ("R-NAN-FRONT", "each ZADD/ZINCRBY front end (direct handler, script-side parser) tests every score it parses for NaN itself, before the engine is called for the first pair", rules_zset.rule_nan_frontends),
         ("R-SKIP-PAIR", "key index, node links and length stay in step: index insert -> node link, re-score unlinks before linking, index remove -> unlink, length written only by link/unlink", rules_zset.rule_skip_pair),
         ("R-EMPTY", "removing the last member removes the key", rules_cmd.rule_empty),
         ("R-ZSET-LATEST", "an engine method that writes scores returns success only after handing the score to SkipList::insert, or after an exact == showed the stored score already equals it (each member holds its latest score)", rules_zset.rule_latest),
@@ -70,6 +71,7 @@ def _c09():
         ("R-RDB-COUNT", "the element count written is len() of the very collection iterated", rules_rdb.rule_count),
         ("R-RDB-TYPE", "the loader decides the value type from the opcode only (no comparison of payload bytes with a constant)", rules_rdb.rule_type),
         ("R-RDB-EXPIRED", "a record carrying an expiry is never loaded as a persistent key", rules_rdb.rule_expired_on_load),
+        ("R-RDB-TTLAPPLY", "the record loader returns successfully only after handing the record's TTL to a storage call, or where the TTL is known to be None (every value type keeps its deadline across a restart)", rules_rdb.rule_ttl_applied),
         ("R-RDB-DB", "loader stores into the database of the last SelectDb record; the writer's selector is the database it reads from", rules_rdb.rule_rdb_db),
         ("R-EXPIRE-INDEXREAD", "deadlines that are reported, persisted or acted on come from the stored value's metadata: only the sweeper reads the (possibly stale) expiry index", rules_expire.rule_index_read),
         ("R-RDB-TEXTNUM", "where the snapshot writer parses dataset text as a number, the number replaces the text only under a round trip n.to_string() == text (strings are stored byte for byte)", rules_int.rule_rdb_text_numbers),
@@ -208,6 +210,7 @@ def _c07():
     return [
         ("R-TX-QUEUE", "in process_frame every effectful call outside the five control commands is dominated by the in_transaction/should_queue_command test and not reachable from its queued edge", rules_tx.rule_queue),
         ("R-TX-NOREFUSE", "inside MULTI no command is refused on a path that skips the queue step (every error reply built after the connection-state read is dominated by the queue test, or is a control command's or the authentication gate's)", rules_tx.rule_norefuse),
+        ("R-TX-REFUSE-PURE", "a refused transaction-control command (nested MULTI, WATCH inside MULTI, DISCARD without MULTI) writes nothing to the connection's transaction state before its error reply", rules_tx.rule_tx_refuse_pure),
         ("R-TX-ORDER", "the queue is only appended at the back and consumed front to back; EXEC's loop pushes exactly one result per command (Ok and Err) and has no early exit", rules_tx.rule_order),
         ("R-TX-RESET", "every exit of EXEC after the in_transaction test passes a reset (in_transaction=false, queue taken/cleared, watched keys cleared), the reset precedes execution; DISCARD/UNWATCH clear on all paths", rules_tx.rule_reset),
         ("R-TX-ATOMIC", "nothing reachable from EXEC re-enters the event loop or blocks the command thread", rules_tx.rule_tx_atomic(lambda ctx: [SERVER + "handle_exec"], "EXEC")),
